@@ -20,7 +20,7 @@ Proof.
   pose proof (Gall_greach P s Hf Hp Hr) as G.
   destruct (g_c10 P s G) as (_ & _ & _ & H3 & _).
   destruct (H3 _ Ht) as (_ & _ & Hl).
-  eapply runt_prog; eauto. now apply late_busy.
+  apply prog_env. eapply runt_prog; eauto. now apply late_busy.
 Qed.
 
 Lemma run_returns_after_failure_lc P s e :
